@@ -117,6 +117,10 @@ type family struct {
 	// several entry rules in turn (rules the reference rejects first, then one it accepts): after failed attempts
 	// a successful Parse(rule) must give the reference's verdict and token sequence
 	retries   []string
+	// retryEqual: two of the retries configs (memoising / not) whose attempts must agree one by one — verdict, error
+	// token and message of every failed attempt, tokens of the successful one (memo table and furthest token both
+	// live on through the attempts of one instance)
+	retryEqual [2]string
 	maxDepth  int // drop cases whose derivation nests deeper than this many rule applications (0 = no bound)
 	stateCode func(cs *gcase) func(int) string
 	noexec    bool
@@ -305,6 +309,11 @@ func (f *family) runBatch(peg string, cases []*gcase, vs []variant, bno int) {
 				if e.rule < 0 && !refs[ci][ei].it.Over && (f.maxDepth == 0 || refs[ci][ei].it.MaxDepth <= f.maxDepth) {
 					hb = append(hb, []byte(e.input))
 					idx = append(idx, ei)
+					if ei%3 == 1 {
+						// the same input once more, right away: Buffer unchanged between two Resets
+						hb = append(hb, []byte(e.input))
+						idx = append(idx, ei)
+					}
 				}
 			}
 			if len(hb) < 2 {
@@ -355,7 +364,7 @@ func (f *family) runBatch(peg string, cases []*gcase, vs []variant, bno int) {
 			if !use || cf.v.inline || len(cs.g.Rules) < 2 {
 				continue
 			}
-			rr := rand.New(rand.NewSource(int64(cs.id)*7919 + int64(cfi)))
+			rr := rand.New(rand.NewSource(int64(cs.id) * 7919)) // the same plan under every config
 			planned := 0
 			for ei, e := range cs.entries {
 				if planned >= 6 || refs[ci][ei].it.Over || len(e.input) == 0 {
@@ -449,6 +458,52 @@ func (f *family) runBatch(peg string, cases []*gcase, vs []variant, bno int) {
 					f.c.run.Violate("retry:"+id, fmt.Sprintf("Parse(rule %s) after %d failed attempts on the same instance: the token sequence is not the derivation's", names[k], k), w(map[string]any{"got_tokens": g, "ref_tokens": wt}))
 				}
 				break
+			}
+		}
+	}
+	if f.retryEqual[0] != "" {
+		ca, cb := -1, -1
+		for cfi, cf := range f.configs {
+			if cf.name == f.retryEqual[0] {
+				ca = cfi
+			}
+			if cf.name == f.retryEqual[1] {
+				cb = cfi
+			}
+		}
+		for rk, pa := range rwhere {
+			if rk.cfi != ca {
+				continue
+			}
+			pb, ok := rwhere[rkey{rk.ci, cb, rk.ei}]
+			if !ok || fmt.Sprint(pa.rules) != fmt.Sprint(pb.rules) {
+				continue
+			}
+			ra, rb := results[pa.at], results[pb.at]
+			if ra.Lost || rb.Lost || ra.Panic != "" || rb.Panic != "" || ra.Fatal != "" || rb.Fatal != "" {
+				continue
+			}
+			cs := cases[rk.ci]
+			in := cs.entries[rk.ei].input
+			var names []string
+			for _, ri := range pa.rules {
+				names = append(names, cs.g.Rules[ri].Name)
+			}
+			key := func(r *corpus.Res) string {
+				if r.OK {
+					return "OK " + tokStrings(r.Toks)
+				}
+				return fmt.Sprintf("FAIL max=%v msg=%q", r.Max, r.Err)
+			}
+			for k := 0; k < len(ra.Hist) && k < len(rb.Hist); k++ {
+				f.c.run.Eval(1)
+				f.c.run.Count("retry_attempts_compared_across_configs", 1)
+				if ga, gb := key(&ra.Hist[k]), key(&rb.Hist[k]); ga != gb {
+					f.c.run.Violate("retry-equal:"+report.Hash(cs.text, "retry", in, fmt.Sprint(pa.rules)),
+						fmt.Sprintf("attempt %d (Parse(rule %s)) of several on one instance: %s and %s differ", k+1, names[k], f.retryEqual[0], f.retryEqual[1]),
+						map[string]any{"grammar": cs.text, "input": in, "entry_rules_in_turn": names, f.retryEqual[0]: ga, f.retryEqual[1]: gb, "note": "one instance per config, no Reset between the attempts"})
+					break
+				}
 			}
 		}
 	}
